@@ -78,6 +78,15 @@ let run_line line =
       (match parse_text (cps prog) with
        | Inl [a] -> (match agree (nat_of_int 2500) a [] with None -> print_endline "SKIP" | Some true -> print_endline "AGREE" | Some false -> print_endline "DIFFER")
        | _ -> print_endline "SKIP")
+    end else if inp = "TC" then begin
+      (* TC <code points of a program text> : Count.trace_main - how many delayed expressions BEGIN evaluation (each at most once: evaluated_at_most_once) *)
+      (match parse_text (cps prog) with
+       | Inl [a] -> (match trace_main (nat_of_int 4000) a [] with
+                     | (Done (_, _, Inl _, _), l) -> Printf.printf "ok %d\n" (List.length l)
+                     | (Done (_, _, Inr e, _), _) when (match e.e_vals with [VInt _; VInt n] -> BZ.equal (bz_of_z n) (BZ.of_int 999) | _ -> false) -> print_endline "SKIP"   (* a built-in outside the model *)
+                     | (Done (_, _, Inr _, _), l) -> Printf.printf "err %d\n" (List.length l)
+                     | _ -> print_endline "SKIP")
+       | _ -> print_endline "SKIP")
     end else if inp = "P" then begin
       match parse_text (cps prog) with
       | Inl asts -> print_endline ("OK " ^ String.concat " | " (List.map ser asts))
